@@ -101,7 +101,7 @@ func (p *Plenc) CodecForTypeWithTag(typ reflect.Type, tag string) (plenccodec.Co
 // pointer and slice element types leads round in a circle without ever
 // reaching a struct. Only a struct can be built in two steps, so building a
 // codec for such a type would recurse forever
-func refersToItself(typ reflect.Type) bool {
+func refersToItself(registry plenccodec.CodecRegistry, typ reflect.Type) bool {
 	seen := map[reflect.Type]struct{}{}
 	for k := typ.Kind(); k == reflect.Ptr || k == reflect.Slice; k = typ.Kind() {
 		if _, ok := seen[typ]; ok {
@@ -109,6 +109,10 @@ func refersToItself(typ reflect.Type) bool {
 		}
 		seen[typ] = struct{}{}
 		typ = typ.Elem()
+		if registry.Load(typ, "") != nil {
+			// A type with a registered codec is not built from its elements
+			return false
+		}
 	}
 	return false
 }
@@ -140,7 +144,7 @@ func (p *Plenc) CodecForTypeRegistry(registry plenccodec.CodecRegistry, typ refl
 
 	switch typ.Kind() {
 	case reflect.Ptr:
-		if refersToItself(typ) {
+		if refersToItself(registry, typ) {
 			return nil, fmt.Errorf("type %s refers to itself without a struct in between and cannot be encoded", typ)
 		}
 		if typ.Elem().Kind() == reflect.Map {
@@ -170,7 +174,7 @@ func (p *Plenc) CodecForTypeRegistry(registry plenccodec.CodecRegistry, typ refl
 		}
 
 	case reflect.Slice:
-		if refersToItself(typ) {
+		if refersToItself(registry, typ) {
 			return nil, fmt.Errorf("type %s refers to itself without a struct in between and cannot be encoded", typ)
 		}
 		subt := typ.Elem()
